@@ -5,7 +5,6 @@ H = Harness
 PROPS = {}
 
 NOT_APPLICABLE = {
-    "C03": "relational semantics of Insert/Update/Delete/Select::exec over histories: executors (BTreeMap<Vec<Value>,_>, HashSet<Vec<Value>>) plus the cfb container measured out of Kani's reach even on an in-memory container model (25 min / 10 GB for 2 rows); no loop-free kernel carries the property",
     "C05": "invariant over all reachable table states under Insert/Update::exec; same measured obstacle as C03 (the cell-validity conjunct is decided under C07)",
 }
 
@@ -597,4 +596,30 @@ PROPS["C05"] = {
     "assumptions": ["iterators modelled by (underlying collection, position) with consistent lengths along a path",
                     "Column::is_valid_value taken as true inside the Insert key law (C07 decides the validation gate)",
                     "external calls are arbitrary-result events that touch only what they are handed"],
+}
+
+# ---------------------------------------------------------------- C03 (partial)
+PROPS["C03"] = {
+    "level": "model_checking", "engine": "mir-smt", "mir": True,
+    "technique": "symbolic execution of the MIR of the executors' per-row kernels (the retain predicates of Delete::exec and Select::exec, the "
+                 "row loop of Update::exec with loops unrolled), of the executors' container calls, and of Rows::next / size_hint from an "
+                 "arbitrary iterator state; conditions are uninterpreted booleans per row; z3/cvc5; counterexamples replayed through a "
+                 "public-API scenario that compares every table with an in-memory relational model after every operation",
+    "claim": "The per-row and per-call kernels only; the comparison with a relational model over operation HISTORIES is not decided (it follows "
+             "from these kernels, C05's key laws, C20's row codec and C01's save protocol by an argument on paper). Decided: DELETE keeps a row "
+             "exactly when a condition is present and false on that row; the SELECT filter keeps a row exactly when its condition is true on that "
+             "row; UPDATE rewrites a row exactly when there is no condition or it is true on that row, and then exactly the cells named by the "
+             "assignments (<= 2), each to the assignment's value, nothing else; the executors' only container calls are exists/open_stream and, "
+             "for the writers, exactly one create_stream, all on the stream of the statement's own table (frame condition: other tables, streams, "
+             "summary untouched by an executor); Rows::len() = rows.len() - next_row_index, next() yields rows[next_row_index] and advances by "
+             "one exactly while rows are left (so the reported length equals the number of rows yielded, by induction). NOT decided: insert "
+             "adds exactly the given rows (C05 decides keys/order, the cell interning closure is not walked), projection cell copying, "
+             "ascending key order of what select returns (that is the stored order: C05), and the meaning of conditions (C13).",
+    "note": "Trusted: MIR translator, iterator models, z3/cvc5. The frame law is sufficient, not necessary: an executor that uses other "
+            "container calls without changing observable state makes the check inconclusive (exit 2), never a VIOLATION.",
+    "bounds": "<= 2 rows, <= 2 assignments, <= 2 cells per row in the filter kernels (each MIR block visited at most 2-3 times per path)",
+    "outside": "operation histories, reopen, insert's cell interning, projection copying, condition semantics",
+    "assumptions": ["iterators modelled by (underlying collection, position) with consistent lengths along a path",
+                    "external calls are arbitrary-result events that touch only what they are handed",
+                    "in the update kernel the key-update branch is switched off (no assigned column is a primary key): C05 decides that branch"],
 }
